@@ -60,6 +60,7 @@ class _Parser(Contract):
     prop = "C38"
     module = M
     differential = False
+    canary_budget = 1500  # 256 byte values x 6 states: a canary's refutation can come late on a busy machine
     summaries = SUMMARIES
 
     def parser(self, state, **extra):
